@@ -9,12 +9,12 @@ import (
 
 func init() {
 	register(&Def{ID: "C01", Run: runC01, Replay: func(c *core.Check, v json.RawMessage) {
-		replayRaw(c, v, func(c *core.Check, st core.State) { c01.Handle(c, st, []int{0, 1, 2, 3, 4}) })
+		replayRaw(c, v, func(c *core.Check, st core.State) { c01.Handle(c, st, []int{0, 1, 2, 3, 4, 5, 6, 7}) })
 	}})
 }
 
 func runC01(c *core.Check) {
-	c.Rule = "every AST reachable by <= MaxD grammar productions (one TLC action per production, siblings from typed pools) over the 17-variable scope; each rendered in 5 layouts (canonical, wide spaces, newlines inside brackets, inline comments, a space between every pair of tokens), parsed and evaluated by hclsyntax and compared with the specification's Eval; non-trivial = distinct source text whose specification value is not out-of-model"
+	c.Rule = "every AST reachable by <= MaxD grammar productions (one TLC action per production, siblings from typed pools) over the 17-variable scope; each rendered in 8 layouts (canonical, wide spaces, newlines inside brackets, inline comments, a space between every pair of tokens, newline-separated object items with trailing commas, line comments inside brackets, alternative number spellings), parsed and evaluated by hclsyntax and compared with the specification's Eval; non-trivial = distinct source text whose specification value is not out-of-model"
 	c.Assumes = []string{
 		"numbers are half-integers, strings come from a finite representative set; results outside the model's universe (oom) are executed for panic-freedom only",
 		"value layer (conversion/unification) follows go-cty where spec.md is silent (named deviations in spec/DEVIATIONS.md)",
@@ -25,7 +25,7 @@ func runC01(c *core.Check) {
 	}
 	c.Extra["constants"] = consts
 	streamTLC(c, core.TLCRun{Module: "MC_E1", Consts: consts, Timeout: minutes(25)},
-		func(st core.State) { c01.Handle(c, st, []int{0, 1, 2, 3, 4}) })
+		func(st core.State) { c01.Handle(c, st, []int{0, 1, 2, 3, 4, 5, 6, 7}) })
 	// heredoc and flush-heredoc templates (canonical layout only: their line structure is the layout)
 	hd := "1"
 	if c.Tier == "thorough" {
